@@ -212,6 +212,10 @@ class BaseSamples:
             x = np.stack([dictionary[p] for p in parameters], axis=-1)
             for p in parameters:
                 dictionary.pop(p, None)
+        # Derived fields (weights, evidence, ESS, ...) are not constructor
+        # arguments; they are recomputed from the log-densities.
+        init_fields = {f.name for f in fields(cls) if f.init}
+        dictionary = {k: v for k, v in dictionary.items() if k in init_fields}
         return cls(x=x, parameters=parameters, **dictionary)
 
     def to_dataframe(self, include: list[str] | None = None) -> "pd.DataFrame":
